@@ -88,7 +88,20 @@ func wrRunConns(ins []wrInput, extraWrap []string, nowait bool) (files [][][]byt
 		}
 		wrFeed(conn, in)
 		conn.Close()
-		line, err = d.out.ReadString('\n')
+		// the connection must end (handleConn returns when the stream ends); a daemon that hangs is a failure, not a wait
+		type rl struct {
+			s   string
+			err error
+		}
+		ch := make(chan rl, 1)
+		go func() { s, err := d.out.ReadString('\n'); ch <- rl{s, err} }()
+		select {
+		case r := <-ch:
+			line, err = r.s, r.err
+		case <-time.After(30 * time.Second):
+			d.cmd.Process.Kill()
+			return files, fmt.Sprintf("connection %d: handleConn has not returned 30 s after the camera disconnected", len(files)+1), false
+		}
 		if err != nil {
 			return files, "driver died", false
 		}
